@@ -1,11 +1,11 @@
 SPECIFICATION Spec
-CONSTANTS MaxPre = 2 MaxN = 5
+CONSTANTS MaxPre = 2 MaxN = 4
   PreAlphabet <- AlphaThorough
   Accs <- AccsQuick
   Posts <- PostsQuick
   FlowKinds = {"bare", "ctx"}
   Drivers = {"run", "fill", "split"}
-  Places = {"alone", "middle", "afterstop"}
+  Places = {"alone", "afterstop"}
   StopFlag = "per_branch"
   CopyMode = "per_branch"
   Bufs <- BufAll
